@@ -309,9 +309,14 @@ func (val Value) Equals(other Value) Value {
 
 		// Two sets are equal if all of their values are known and all values
 		// in one are also in the other.
+		ety := ty.ElementType()
 		for it := s1.Iterator(); it.Next(); {
 			rv := it.Value()
 			if _, unknown := rv.(*unknownType); unknown { // "*unknownType" is the internal representation of unknown-ness
+				return unknownResult()
+			}
+			if !(Value{ty: ety, v: rv}).IsWhollyKnown() {
+				// A partially-unknown element can't be matched yet either.
 				return unknownResult()
 			}
 			if !s2.Has(rv) {
@@ -321,6 +326,10 @@ func (val Value) Equals(other Value) Value {
 		for it := s2.Iterator(); it.Next(); {
 			rv := it.Value()
 			if _, unknown := rv.(*unknownType); unknown { // "*unknownType" is the internal representation of unknown-ness
+				return unknownResult()
+			}
+			if !(Value{ty: ety, v: rv}).IsWhollyKnown() {
+				// A partially-unknown element can't be matched yet either.
 				return unknownResult()
 			}
 			if !s1.Has(rv) {
